@@ -163,6 +163,8 @@ class G(object):
             alias = r.pick(ALIASES.get(base, []) + [base.upper(), base.lower(), base.capitalize()])
             if alias not in names:
                 names.append(alias)
+        if getattr(self, "custom_map", False) and r.chance(0.6):
+            names.append("staffId")     # the home-grown attribute of the federation's own attribute map
         ident = {}
         for nm in names:
             k = r.weighted([(1, 5), (2, 2), (4, 1)])
@@ -201,6 +203,9 @@ class G(object):
         self.tick(gap)
         self.ev("answer", f=f, p=p, sub=self.sub())
         self.tick(gap)
+        if self.r.chance(0.04):
+            # one of the two serves its own metadata from its live configuration in between
+            self.ev("publish", node=self.r.pick([sp["name"], idp["name"]]))
         if deliver:
             kw = dict(resp_kw or {})
             self.ev("resp", f=f, r=0, sub=self.sub(), **kw)
@@ -472,6 +477,11 @@ def gen_c08(seed, tier):
             nreq = g.rl.pick([0, 0, 1])
             sps[-1]["req_attrs"], sps[-1]["opt_attrs"] = asked_for[:nreq], asked_for[nreq:]
     g.draw_skews(choices=(0, 0, 1, -1, 3, -3, 30))
+    if g.rl.chance(0.3):
+        # the whole federation uses its own attribute map directory (with one home-grown attribute)
+        g.custom_map = True
+        for n_ in g.nodes:
+            n_["attr_map"] = True
     faulty = (seed % 4 == 3)
     g.knobs = {"class": "faulty" if faulty else "clean"}
     n = 10 if tier == "quick" else 20
@@ -578,8 +588,12 @@ def gen_c05(seed, tier):
                 if r.chance(0.4):
                     d["first_sc_nodata"] = True
             if r.chance(0.3):
-                d["recipient"] = r.pick([fed.sp_endpoints(r.pick(others))["acs_post"], fed.sp_entity(sp),
-                                         "https://evil.example/acs"])
+                me_ = fed.sp_entity(sp)
+                d["recipient"] = r.pick([fed.sp_endpoints(r.pick(others))["acs_post"], me_,
+                                         "https://evil.example/acs",
+                                         # near misses: parts of the SP's own entity identifier / endpoints
+                                         me_[:-1], me_.rsplit("/", 1)[0], me_.split("//", 1)[1], me_ + "/",
+                                         fed.sp_endpoints(sp)["acs_post"][:-1], fed.sp_endpoints(sp)["acs_post"] + "/x"])
             if r.chance(0.2):
                 d["resp_irt"] = r.pick(["id-unknown00000000001", None])
             if r.chance(0.25):
@@ -735,11 +749,16 @@ def gen_c03(seed, tier):
             # claimed Issuer x actual signing key: this IdP asserts under another federation member's name
             other = r.pick([x for x in idps if x is not idp])
             which = r.pick(["both", "response", "assertion"])
+            claimed = fed.idp_entity(other["name"])
+            if r.chance(0.35):
+                # ... or under a name that is in nobody's metadata but one character away from its own
+                own = fed.idp_entity(idp["name"])
+                claimed = r.pick([own + "/", own[:-1], own.upper(), own + " ", own.replace("https://", "http://")])
             d = {}
             if which in ("both", "response"):
-                d["resp_issuer"] = fed.idp_entity(other["name"])
+                d["resp_issuer"] = claimed
             if which in ("both", "assertion"):
-                d["assertion_issuer"] = fed.idp_entity(other["name"])
+                d["assertion_issuer"] = claimed
             p["dialect"] = d
         elif r.chance(0.15) and len(idps) > 1 and not p.get("encrypt"):
             # an attribute assertion of another member, signed, carried encrypted in the Advice of this IdP's
@@ -806,6 +825,14 @@ def gen_c17(seed, tier):
             if idp.get("enc_in_config") and r.chance(0.6):
                 p["encrypt"] = None
             g.login(sp, idp, p)
+            continue
+        if not hooked and r.chance(0.12):
+            # the SP sent a certificate of its own with the request (and keeps the private key, possibly next to
+            # others, for this request only); the IdP encrypts for it
+            fit = r.pick([10, 11])
+            p["enc_cert"] = fit
+            keys_ = r.pick([[fit], [fit, 21 - fit], [21 - fit, fit], [fit, 21 - fit]])
+            g.login(sp, idp, p, resp_kw={"req_keys": keys_})
             continue
         variant = r.weighted([("plain", 6), ("advice", 1), ("pefim", 1), ("signed-advice", 1)]) if clean or r.chance(0.5) else "plain"
         if variant == "advice":
@@ -1004,6 +1031,10 @@ def gen_c10(seed, tier):
         if sign and r.chance(0.6):
             kw["sigalg"] = r.pick(SIGALGS)
             kw["digalg"] = r.pick(DIGALGS)
+        if r.chance(0.1):
+            # the receiver's /metadata handler is hit: metadata generated from the live configuration
+            g.ev("publish", node=r.pick([idp["name"], idp["name"], sp["name"]]))
+            g.tick(0.25)
         kindmsg = r.weighted([("authn_request", 6), ("logout_request", 3), ("attribute_query", 2), ("logout_idp2sp", 2),
                               ("manage_name_id_request", 1), ("name_id_mapping_request", 1), ("authn_query", 1)])
         # (AuthzDecisionQuery is not sent: the fork has no SOAP unwrapper for it, Entity.unravel fails with
